@@ -7,6 +7,9 @@ From Coq Require Import List ZArith NArith Bool Arith.
 Import ListNotations.
 From V Require Import Model.Align Model.SnapOps Model.SeqAssign Model.SeqUpdate Proofs.AlignValid Proofs.AlignProofs Proofs.SeqAssignProofs Proofs.SeqUpdateProofs Proofs.SnapOpsFlat.
 From V Require Import Model.TreeAssign Proofs.TreeAssignProofs.
+From Coq Require Import ZArith.
+From V Require Import Model.SeqAssign Model.DictAssign Proofs.DictAssignProofs.
+Close Scope Z_scope.
 
 Theorem C02_seq_fix_value :
   forall (F : flags) (old : list leaf) (new : list Z),
@@ -128,6 +131,27 @@ Theorem C02_assign_fuel_irrelevant :
   depth o < f1 -> depth o < f2 -> assign f1 F o n = assign f2 F o n.
 Proof. exact assign_fuel_irrelevant. Qed.
 
+(* dict displays (Model/DictAssign.v): with fix the entries of the repaired display are exactly the entries of the observed dict, no key twice;
+   without fix the value never changes *)
+Theorem C02_dict_fix_value :
+  forall (F : flags) (olds : list entry) (news : list (Z * Z)) (k v : Z),
+  f_fix F = true ->
+  NoDup (map e_key olds) ->
+  NoDup (map fst news) -> In (k, v) (map pair_of (dict_result F olds news)) <-> In (k, v) news.
+Proof. exact dict_fix_value. Qed.
+
+Theorem C02_dict_fix_nodup :
+  forall (F : flags) (olds : list entry) (news : list (Z * Z)),
+  f_fix F = true ->
+  NoDup (map e_key olds) -> NoDup (map fst news) -> NoDup (map ditem_key (dict_result F olds news)).
+Proof. exact dict_fix_nodup. Qed.
+
+Theorem C02_dict_nofix_value :
+  forall (F : flags) (olds : list entry) (news : list (Z * Z)),
+  f_fix F = false ->
+  map pair_of (dict_result F olds news) = map (fun e : entry => (e_key e, l_val (e_leaf e))) olds.
+Proof. exact dict_nofix_value. Qed.
+
 Print Assumptions C02_seq_fix_value.
 Print Assumptions C02_seq_nofix_value.
 Print Assumptions C02_align_no_i_then_d.
@@ -144,3 +168,6 @@ Print Assumptions C02_tree_fix_value.
 Print Assumptions C02_tree_nofix_value.
 Print Assumptions C02_assign_fix_value.
 Print Assumptions C02_assign_fuel_irrelevant.
+Print Assumptions C02_dict_fix_value.
+Print Assumptions C02_dict_fix_nodup.
+Print Assumptions C02_dict_nofix_value.
